@@ -177,11 +177,14 @@ package runner
 //@   loop 2: invariant len(results) == len(targets)
 //@   loop 2: invariant outcome: forall j: int :: 0 <= j && j <= rangeindex ==> (targets[j].status >= 2 && results[j].Error == targets[j].err && results[j].Target == targets[j].target)
 
+//   n_runs - completed calls of runner.Run by this goroutine
+//@ ghost n_runs int threadlocal = 0
 //@ func runner.Run
+//@   ensures  n_runs == old(n_runs) + 1
 //@   requires held == 0
 //@   requires claimed == ref_empty()
 //@   requires nolocks: (forall g: *runner.gate :: !holds(g.m)) && (forall x: *runner.target :: !holds(x.m))
-//@   modifies heap
+//@   modifies heap, n_runs
 
 // C09: the accounting behind "at most N targets execute at once".
 // Every release of gate.m changes the releasing goroutine's `held` by old(capacity)-capacity
